@@ -176,8 +176,13 @@ pub fn power_check(sb: &Sandbox, case: &Case, cr: &CountRun, n: i64, t: i64, man
     for i in 0..m.acked.min(case.ops.len()) {
         let effective = !matches!(case.ops[i], Op::Batch { .. }) || cr.states[i].state != cr.states[i + 1].state;
         let hit = effective && if manual_mode { is_flush_op(&case.ops[i]) } else { is_sync_op(&case.ops[i]) };
-        if hit || rot.contains(&i) {
+        if hit {
             lo = i + 1;
+        } else if rot.contains(&i) {
+            // a journal rotation seals (fsyncs) everything journaled BEFORE it; inside a write
+            // operation the rotation runs in the forced worker steps that precede the write itself,
+            // so the operation's own record already belongs to the new, not yet persisted journal
+            lo = lo.max(i);
         }
     }
     let lost = if manual_mode { 0 } else { apply_power_loss(&parse_log(&sb.log)) };
